@@ -42,8 +42,9 @@ ASSUMPTIONS = [
     "calls on a released engine (between finalize() and the next setup()) are part of the histories: they must return at once",
     "run(ms): the number of iterations it performed is read off the native clock after the call (wall-clock dependent)",
     "large molecule numbers (cell amounts / species totals up to 2^36 and beyond 2^31): rate constants and diffusion coefficients are scaled so "
-    "that every Poisson mean (tau-leap channel, init_state_processing='Poisson' cell) stays below 2^31 — std::poisson_distribution<int> does "
-    "not return beyond that (recorded size assumption, repaired separately)",
+    "that the run stays short; Poisson means beyond the range of int (tau-leap channel with propensity x time_step >= 2^31, "
+    "init_state_processing='Poisson' on a cell >= 2^31) ARE generated: std::poisson_distribution<int> never returned there (genuine defect, "
+    "repaired by f4d954c / fix30: the draws use <long long>)",
 ]
 TRUSTED = ["life_child.py (sandboxed driver of the real engine)", "reference state machine in this file (written from the property)"]
 
@@ -78,7 +79,7 @@ def _scale(v, f):
     return {k: x * f for k, x in v.items()} if isinstance(v, dict) else v * f
 
 
-def magnify(rng, S, info, band, sum_only=False):
+def magnify(rng, S, info, band, sum_only=False, channel_mean=None):
     """turn a generated (valid) script into one of the class "large molecule numbers": the amounts of ONE species (sometimes
     of every species) become odd whole numbers of the band; with `sum_only` every single cell stays below 2^30 and only the
     species TOTAL passes 2^31 (needs >= 3 cells, otherwise falls back to the band).  Rate constants and diffusion
@@ -87,6 +88,7 @@ def magnify(rng, S, info, band, sum_only=False):
     sysd = S["system"]
     nsp, n = info["nsp"], info["n"]
     name, lo, hi = band
+    channel_mean = BIG_CHANNEL_MEAN if channel_mean is None else channel_mean
     M = 1.0
     state = list(sysd["state"])
     which = [rng.randrange(nsp)] if rng.random() < 0.7 else list(range(nsp))
@@ -95,11 +97,8 @@ def magnify(rng, S, info, band, sum_only=False):
         if sum_only and n >= 3:
             vals = [float(rng.randrange(2 ** 29, 2 ** 30) | 1) for _ in range(n)]     # n >= 3 cells of >= 2^29: total >= 2^31
             name = "cells<2^30,total>=2^31"
-        elif mode == "Poisson":
-            # one Poisson draw per cell with the amount as mean: keep every cell below 2^30 (size assumption, see above)
-            vals = [float(rng.randrange(2 ** 24, 2 ** 30) | 1) for _ in range(n)]
-            name = "2^24..2^30(Poisson)"
         else:
+            # (Poisson mode: one draw per cell with the amount as mean, also beyond the range of int — repaired by fix30)
             vals = [float(rng.randrange(2 ** lo, 2 ** hi) | 1) for _ in range(n)]
             if n > 1 and rng.random() < 0.4:
                 vals[rng.randrange(n)] = float(rng.choice([0, 1, 7]))      # an (almost) empty cell next to the full ones
@@ -108,9 +107,9 @@ def magnify(rng, S, info, band, sum_only=False):
     sysd["state"] = state
     for r in sysd["network"]["reactions"]:
         lhs, _, rhs = r["eq"].partition("->")
-        r["k+"] = _scale(r["k+"], BIG_CHANNEL_MEAN / M ** _side_order(lhs))
+        r["k+"] = _scale(r["k+"], channel_mean / M ** _side_order(lhs))
         if "k-" in r:
-            r["k-"] = _scale(r["k-"], BIG_CHANNEL_MEAN / M ** _side_order(rhs))
+            r["k-"] = _scale(r["k-"], channel_mean / M ** _side_order(rhs))
         else:
             r["k-"] = 0          # (the default reverse rate constant is not scaled by anyone: state it)
     for sp in sysd["network"]["species"]:
@@ -149,11 +148,16 @@ def make_pool(ctx, n, kind="plain", degenerate=False, n_big=0):
         mode = ["auto", "redist", "redist", "auto", "redist", "none", "Poisson", "none", "auto", "Poisson"][b % 10]
         if option == "euler" and rng.random() < 0.5:
             mode = rng.choice(["none", "auto"])
-        S, info = lc.gen_script(rng, option, max_steps=12 if option != "gillespie" else 6, mode=mode, units=rng.random() < 0.3,
+        beyond = (b % 10 == 5)      # tau-leap, "none": reaction channels whose Poisson mean (propensity x time_step) passes 2^31
+        S, info = lc.gen_script(rng, option, max_steps=12 if option != "gillespie" else 6, mode=mode, units=(rng.random() < 0.3 and not beyond),
                                 zero_tmax=False, degenerate=(degenerate and rng.random() < 0.5),
                                 space_kind=("grid" if b % 4 == 3 else None))
         band = BIG_BANDS[(1, 2, 1, 0)[b % 4]] if not (mode == "none" and rng.random() < 0.5) else BIG_BANDS[0]
-        S, info = magnify(rng, S, info, band, sum_only=(b % 4 == 3))
+        if beyond and isinstance(S["kw"].get("time_step"), (int, float)) and S["kw"]["time_step"] > 0:
+            S, info = magnify(rng, S, info, BIG_BANDS[2], channel_mean=2.0 ** 33 / float(S["kw"]["time_step"]))
+            info["big"] = "tauleap-mean>=2^31"
+        else:
+            S, info = magnify(rng, S, info, band, sum_only=(b % 4 == 3))
         info["sub_molecule"] = False
         pool.append({"S": S, "info": info, "option": option, "idx": n + b})
     jobs = []
@@ -622,7 +626,7 @@ def _limit_per_key(ctx, per_key=3):
 
 def run(ctx):
     _limit_per_key(ctx)
-    ctx.notes.append("every_call_returns: total except for two explicit hypotheses (Setup.initReturns = C14 redistribution loop terminates; Setup.stepReturns = poisson_distribution<int> returns, size assumption); "
+    ctx.notes.append("every_call_returns: total except for two explicit hypotheses (Setup.initReturns = C14 redistribution loop terminates; Setup.stepReturns = every Poisson draw of the run returns — running the real code at the excluded point (mean >= 2^31) showed that it did not: fix30); "
                      "both are observed with time-outs here, also for species totals / cell amounts beyond 2^31 (the redistribution loop counts whole molecules)")
     ctx.notes.append("independent_partial: holds for non-overlapping live intervals; the full statement is proved false (not_independent, "
                      "independent_is_false) = known finding two-engines-share-native")
